@@ -8,6 +8,7 @@
 (*   err, n, out       result of UncompressBlock[WithDict]                 *)
 (*   panicked          "" or the recovered panic / memory fault text       *)
 (*   canary            bytes outside len(src)/len(dst)/len(dict) untouched *)
+(*                     and without influence on the result (not read)      *)
 (*   srcok, dictok     inputs unchanged                                    *)
 (*   stable            same result for three different destination         *)
 (*                     pre-fills and two memory layouts                    *)
